@@ -70,7 +70,8 @@ def run_one(spec, tier="quick", verbose=False):
             # a behaviour-preserving change: every claimed property must stay silent (known findings excepted)
             keys = []
             import gc
-            for pid in claimed():
+            only = os.environ.get("VCHECK_ONLY_PROPS", "").split()
+            for pid in (only or claimed()):
                 new, known, obs = engine.run_property(pid, tier, quiet=True, repo=d, write_evidence=False)
                 keys += ["%s %s %s" % (pid, o.rule, o.key) for o in new]
                 del new, known, obs
